@@ -1199,7 +1199,13 @@ func buildIntrinsics() map[string]intrinsic {
 		}
 		if allConc && os.Getenv("GOSYM_MURMUR_UF_ALWAYS") == "" {
 			// concrete key: run the real implementation (exact hash, no artificial collisions between constants)
-			return ex.callFnBody(fr, fn, args, nil)
+			// and tie the uninterpreted function to it at this point, so that a symbolic key which equals these
+			// bytes hashes to the same value
+			r := ex.callFnBody(fr, fn, args, nil)
+			if rt, ok := r.(*Term); ok {
+				ex.addPC(ex.tc.Eq(ex.tc.UF(fmt.Sprintf("murmur%d", len(bs)), 32, bs...), rt))
+			}
+			return r
 		}
 		return ex.tc.UF(fmt.Sprintf("murmur%d", len(bs)), 32, bs...)
 	})
